@@ -361,6 +361,27 @@ Definition decrypt_queries (e : envelope) (key aad : list Z) : queries :=
   mk_q (sha_input e key) (e_key_hash e) (iv_of e) (key_len_ok key)
        (aad_of e aad) (len (e_data e)) (e_digest e).
 
+(* ------------------------------------------------------------------ well-formed attribute sets
+   (what a writer can store: the value fits the declared type, names and strings are NUL-free UTF-8,
+   names are pairwise distinct; a Float holds a bit pattern that survives float -> double -> float) *)
+Definition nonul (s : list Z) : Prop := Forall (fun c => c <> 0) s.
+
+Definition wf_val (ty : Z) (v : aval) : Prop :=
+  match v with
+  | VInt x => (ty = 1 /\ 0 <= x < 2 ^ 8) \/ (ty = 2 /\ 0 <= x < 2 ^ 16) \/ (ty = 3 /\ 0 <= x < 2 ^ 32)
+              \/ (ty = 4 /\ 0 <= x < 2 ^ 64) \/ (ty = 5 /\ - 2 ^ 7 <= x < 2 ^ 7) \/ (ty = 6 /\ - 2 ^ 15 <= x < 2 ^ 15)
+              \/ (ty = 7 /\ - 2 ^ 31 <= x < 2 ^ 31) \/ (ty = 8 /\ - 2 ^ 63 <= x < 2 ^ 63)
+  | VF32 b => ty = 9 /\ 0 <= b < 2 ^ 32 /\ quiet32 b = b
+  | VF64 b => ty = 10 /\ 0 <= b < 2 ^ 64
+  | VStr s => ty = 11 /\ nonul s /\ utf8_valid s = true
+  | VBytes b => ty = 12 /\ len b < 2 ^ 63
+  end.
+
+Definition wf_attr (a : attr) : Prop :=
+  nonul (a_name a) /\ utf8_valid (a_name a) = true /\ wf_val (a_type a) (a_val a).
+
+Definition wf_attrs (l : list attr) : Prop := Forall wf_attr l /\ NoDup (map a_name l).
+
 (* ------------------------------------------------------------------ the writer (specification side) *)
 Definition CF_MAGIC := Gen.Consts.envelope_FOOTER_CRYPTO_MAGIC.
 Definition AEAD_MAGIC := Gen.Consts.envelope_FOOTER_AEAD_MAGIC.
